@@ -158,6 +158,18 @@ def _pipeline(ck, p, byk):
         # span is the lint's own span
         span_ok = any("span" in str(o) for o in cpv.trace_operand(gc[0][1]["args"][0])) or "span" in arg_fields(cpv, gc[0][1]["args"][0])
         ok = ok and span_ok
+    if not ok:
+        # the same computation written as a loop in lint() itself
+        gc = [(bi, t) for bi, t in f.calls() if inst_of(t).endswith("span::{impl}::get_content_string")]
+        for bi, t in gc:
+            o2 = {o for o in flatten(pv.trace_operand(t["args"][1])) if o[0] == "call"}
+            span_ok = "span" in arg_fields(pv, t["args"][0]) or any("span" in str(o) for o in pv.trace_operand(t["args"][0]))
+            if o2 and o2 == src_origin and span_ok:
+                ok = True
+                detail = "get_content_string(&source) in lint() itself on the lint's own span, source origin %s" % sorted(map(str, o2))
+        if not ok and not gc and not any((bi, t) for c in clos for bi, t in c.calls() if inst_of(t).endswith("span::{impl}::get_content_string")):
+            ck.undecided(rule, "Linter::lint:problem-text", f.span, "no get_content_string call found in lint() or its closures: how the problem text is produced is not of a recognised form")
+            return
     ck.decide(rule, "Linter::lint:problem-text", ok, f.span, detail)
 
 
